@@ -364,6 +364,13 @@ fn run_random(ctx: &mut Ctx, rng: &mut Rng, _index: u64) {
         let at = rng.range(0, fields.len());
         let v: &[u8] = *rng.pick(&[b" chunked".as_slice(), b"chunked", b"  Chunked  "]);
         fields.insert(at, Field { name: rng.pick(&["Transfer-Encoding", "transfer-encoding", "TRANSFER-ENCODING"]).to_string(), raw_value: v.to_vec() });
+        // a third of these: the coding list is spread over two field lines (both are hidden,
+        // every other field keeps its own values)
+        if rng.chance(1, 3) && fields.len() < 100 {
+            let at0 = rng.range(0, at);
+            fields.insert(at0, Field { name: rng.pick(&["Transfer-Encoding", "transfer-encoding"]).to_string(), raw_value: b" x-foo".to_vec() });
+            ctx.count("transfer_encoding_on_two_field_lines", 1);
+        }
     }
     let code = 100 + rng.below(900) as u16;
     // codes that imply "no body" are fine: the body is not read here
